@@ -169,6 +169,16 @@ func genArith(rng *rand.Rand) *arithEval {
 	return &arithEval{P: p, Base: hex128(base), X: hex128(x), N: patternU64(rng)}
 }
 
+// Two buffers the worker keeps for the whole run. Half of the evaluations pass their operands in these
+// (rewritten in place for every evaluation, as a caller with one scratch buffer does) instead of fresh
+// slices: results must depend on the values, not on which slice carried them or what it held before.
+var scratchBase, scratchX = make(net.IP, 16), make(net.IP, 16)
+
+func ipIn(buf net.IP, v *big.Int) net.IP {
+	copy(buf, IPOf(v))
+	return buf
+}
+
 func IPOf(v *big.Int) net.IP {
 	b := v.Bytes()
 	ip := make(net.IP, 16)
@@ -181,6 +191,7 @@ func arithOne(ctx *fw.Ctx, ev *arithEval) {
 	x, _ := new(big.Int).SetString(ev.X, 16)
 	p := ev.P
 	ctx.Eval("C20", 1)
+	reuse := (ev.N^uint64(p))&1 == 1
 	nontrivial := p == 63 || p == 64 || p == 65
 	report := func(sig, format string, a ...any) {
 		ctx.ViolWith("C20", sig, &arithCase{One: ev}, "p=%d base=%s x=%s n=%d: %s", p, IPOf(base), IPOf(x), ev.N, fmt.Sprintf(format, a...))
@@ -190,6 +201,9 @@ func arithOne(ctx *fw.Ctx, ev *arithEval) {
 	wantIdx, wantOvf := model.BlockIndex(x, base, p)
 	for order := 0; order < 2; order++ {
 		a, b := IPOf(x), IPOf(base)
+		if reuse {
+			a, b = ipIn(scratchX, x), ipIn(scratchBase, base)
+		}
 		if order == 1 {
 			a, b = b, a
 		}
@@ -218,7 +232,12 @@ func arithOne(ctx *fw.Ctx, ev *arithEval) {
 
 	// --- AddPrefixes
 	wantSum, sumOvf := model.AddBlocks(base, ev.N, p)
-	got, err := allocators.AddPrefixes(IPOf(base), ev.N, uint64(p))
+	baseArg := IPOf(base)
+	if reuse {
+		baseArg = ipIn(scratchBase, base)
+		ctx.Count("arith.operands_in_reused_buffers", 1)
+	}
+	got, err := allocators.AddPrefixes(baseArg, ev.N, uint64(p))
 	switch {
 	case sumOvf && err == nil:
 		report("addprefixes-wrap", "AddPrefixes returned %s, want overflow error (true sum %s*2^(128-%d) beyond the address space)", got, new(big.Int).SetUint64(ev.N), p)
@@ -229,7 +248,7 @@ func arithOne(ctx *fw.Ctx, ev *arithEval) {
 			report("addprefixes-value", "AddPrefixes = %s, want %s", got, IPOf(wantSum))
 		} else {
 			// inverse law
-			back, err := allocators.Offset(got, IPOf(base), p)
+			back, err := allocators.Offset(got, baseArg, p)
 			if err != nil || back != ev.N {
 				report("inverse", "Offset(AddPrefixes(base,n,p), base, p) = %d, %v; want n", back, err)
 			}
